@@ -510,6 +510,14 @@ class ValGen:
                     groups += [[1, fl(Fraction(1)), {"l": []}], [True, 1, {"m": []}], [0, False], [1, 2, {"l": []}]]
                 for g in groups:
                     out.append({tag: g})
+            if k in ("seqOf", "tupleOf") and d["item"]["k"] in ("integer", "number", "float", "boolean", "anything"):
+                # ==-equal elements of DIFFERENT type next to each other (1 == 1.0 == True): each element is
+                # decided on its own, whatever an equal earlier element was
+                tag = "t" if k == "tupleOf" else ("q" if d.get("seq") == "deque" else "l")
+                one, zero, two = fl(Fraction(1)), fl(Fraction(0)), fl(Fraction(2))
+                for g in ([1, one], [one, 1], [True, 1], [1, True], [0, 3, zero], [False, True, zero], [2, two], [zero, False],
+                          [1, 1, one, True]):
+                    out.append({tag: g})
             return out
         if k == "enumCls":
             # every member of the class by name and by value (also the ones a restricted field
